@@ -10,6 +10,7 @@ import (
 	"strconv"
 	"strings"
 	"sync"
+	"time"
 
 	"github.com/btcsuite/btcd/blockchain"
 	"github.com/btcsuite/btcd/chainhash/v2"
@@ -393,7 +394,38 @@ func (e *env) op(tok string) string {
 	panic("bad op " + tok)
 }
 
-func (P) Exec(line string) string {
+// Exec runs one line under a watchdog: changed code under test may loop for ever; the line then
+// answers "timeout" instead of hanging the whole run. A panic inside is passed on to core.
+func (p P) Exec(line string) string {
+	type res struct {
+		out string
+		pan any
+	}
+	ch := make(chan res, 1)
+	go func() {
+		defer func() {
+			if r := recover(); r != nil {
+				ch <- res{pan: r}
+			}
+		}()
+		ch <- res{out: p.exec(line)}
+	}()
+	limit := 120 * time.Second
+	if strings.HasPrefix(line, "C17 par") {
+		limit = 300 * time.Second
+	}
+	select {
+	case r := <-ch:
+		if r.pan != nil {
+			panic(r.pan)
+		}
+		return r.out
+	case <-time.After(limit):
+		return "timeout"
+	}
+}
+
+func (P) exec(line string) string {
 	f := strings.Fields(line)
 	if len(f) < 3 || f[0] != "C17" {
 		return "bad-op"
@@ -442,7 +474,7 @@ func (P) Exec(line string) string {
 					outs[i] = "bad-op"
 					return
 				}
-				outs[i] = P{}.Exec("C17 " + sub)
+				outs[i] = P{}.exec("C17 " + sub)
 			}(i, sub)
 		}
 		wg.Wait()
@@ -814,7 +846,7 @@ func (P) Generate(g *core.Gen) {
 		g.Case("anc-linear-all", true, fmt.Sprintf("C17 t 0:%d %s", l, strings.Join(ops, " ")))
 	}
 	// all pairs on small random trees: anc / isa / rel / skip
-	for i := 0; i < g.N(300, 4000); i++ {
+	for i := 0; i < g.N(220, 4000); i++ {
 		t := randTree(r, r.Intn(24)+1)
 		var ops []string
 		for a := 0; a < t.n(); a++ {
@@ -829,7 +861,7 @@ func (P) Generate(g *core.Gen) {
 		g.Case("allpairs-small", t.n() > 2, fmt.Sprintf("C17 t %s %s", t, strings.Join(ops, " ")))
 	}
 	// all pairs on small trees: view ops for every tip and every node
-	for i := 0; i < g.N(300, 4000); i++ {
+	for i := 0; i < g.N(220, 4000); i++ {
 		t := randTree(r, r.Intn(14)+1)
 		var ops []string
 		for tip := 0; tip < t.n(); tip++ {
@@ -844,7 +876,7 @@ func (P) Generate(g *core.Gen) {
 		g.Case("view-allpairs-small", t.n() > 2, fmt.Sprintf("C17 t %s %s", t, strings.Join(ops, " ")))
 	}
 	// every stop and max on small trees
-	for i := 0; i < g.N(200, 3000); i++ {
+	for i := 0; i < g.N(150, 3000); i++ {
 		t := randTree(r, r.Intn(10)+2)
 		tip := t.randNode(r)
 		ops := []string{fmt.Sprintf("tip:%d", tip)}
@@ -860,7 +892,7 @@ func (P) Generate(g *core.Gen) {
 		g.Case("inv-every-stop-max", t.n() > 2, fmt.Sprintf("C17 t %s %s", t, strings.Join(ops, " ")))
 	}
 	// random trees up to 2000 nodes (thorough: 5000), random tips (re-orgs of the view) and queries
-	for i := 0; i < g.N(700, 8000); i++ {
+	for i := 0; i < g.N(600, 8000); i++ {
 		maxN := int(r.Pick(5, 30, 30, 200, 200, 2000))
 		if g.Thorough() && r.Chance(1, 10) {
 			maxN = 5000
@@ -905,7 +937,7 @@ func (P) Generate(g *core.Gen) {
 		g.Case(class, t.n() > 3, fmt.Sprintf("C17 t %s %s", t, strings.Join(ops, " ")))
 	}
 	// view life with revisits: tips drawn from a small pool (stale slice entries beyond len matter)
-	for i := 0; i < g.N(600, 8000); i++ {
+	for i := 0; i < g.N(400, 8000); i++ {
 		t := randTree(r, int(r.Pick(8, 20, 60)))
 		pool := []int{t.randNode(r), t.randNode(r), t.randNode(r), t.n() - 1, 0}
 		var ops []string
